@@ -50,7 +50,7 @@ class DynSlice(Case):
             return cs
         Case.__init__(s, f'dyn{"x" if expr else ""}_{SHORT[T]}_{"x".join(map(str, shape))}_to_{"x".join(map(str, oshape))}', args, k, r,
                       desc=f'R = A({seqs}){" + B" if expr else ""}: {shape} -> {oshape} {T}', pre=pre)
-        s.dom = 'bits'; s.max_paths = 400; s.timeout = 20
+        s.dom = 'uf' if (expr and T in FT) else 'bits'; s.max_paths = 400; s.timeout = 20
 
 
 def fs(F, L, S=1): return ('fseq', F, L, S)
@@ -126,12 +126,12 @@ def cases(tier, cfg, seed):
             for n in range(1, N + 1):
                 if tier == 'quick' and N == 9 and n not in (1, 2, 3, 4, 5, 8, 9): continue
                 add(DynSlice(T, (N,), (n,)))
-        if T == 'int': add(DynSlice(T, (9,), (4,), expr=True))
+        add(DynSlice(T, (9,), (4,), expr=True))
         # dynamic 2-D
         for shape, osh in ([((4, 9), (2, 4)), ((3, 8), (3, 8))] if tier == 'quick' else
                            [((4, 9), (2, 4)), ((5, 5), (3, 2)), ((3, 8), (3, 8)), ((4, 9), (4, 3)), ((9, 17), (4, 8)), ((5, 9), (5, 5)), ((6, 6), (2, 6)), ((8, 8), (4, 4))]):
             add(DynSlice(T, shape, osh))
-        if T == 'int' and tier != 'quick': add(DynSlice(T, (4, 9), (2, 4), expr=True))
+        if tier != 'quick' or T == 'double': add(DynSlice(T, (4, 9), (2, 4), expr=True))
         if T == 'double' and tier != 'quick': add(DynSlice(T, (3, 4, 5), (2, 2, 3)))
         # compile-time ranges 1-D
         for N in ((6, 9) if tier == 'quick' else (4, 6, 9, 17)):
